@@ -745,7 +745,7 @@ def from_const(x):
 
 def _pure_ext_table():
     import struct as _struct, operator as _operator, binascii as _ba, zlib as _zlib, itertools as _it, functools as _ft
-    t = {'struct.pack': _struct.pack, 'struct.unpack': _struct.unpack, 'struct.calcsize': _struct.calcsize, 'struct.unpack_from': _struct.unpack_from,
+    t = {'struct.pack': _struct.pack, 'struct.unpack': _struct.unpack, 'struct.calcsize': _struct.calcsize, 'struct.unpack_from': _struct.unpack_from, 'struct.iter_unpack': lambda f, b: list(_struct.iter_unpack(f, b)),
          'binascii.hexlify': _ba.hexlify, 'binascii.unhexlify': _ba.unhexlify, 'binascii.crc_hqx': _ba.crc_hqx, 'binascii.crc32': _ba.crc32,
          'binascii.b2a_hex': _ba.b2a_hex, 'binascii.a2b_hex': _ba.a2b_hex,
          'zlib.crc32': _zlib.crc32, 'zlib.adler32': _zlib.adler32,
@@ -984,7 +984,8 @@ def ext_call(it, dotted, args, kw, n):
     if last == 'ba2int' and 'bitarray' in dotted:
         signed = kw.get('signed', args[1] if len(args) > 1 else K(False))
         return ba2int(it, args[0], it.truth(signed))
-    if dotted in ('bitarray.bitarray', 'bitarray'):
+    if dotted in ('bitarray.bitarray', 'bitarray', 'bitarray.frozenbitarray', 'frozenbitarray'):
+        # (a frozenbitarray is modelled as the bit string it holds: the package cannot mutate it, an attempt would be a TypeError at run time)
         if not args:
             return BA()
         return to_ba(it, args[0], 'bitarray() argument')
@@ -2190,7 +2191,7 @@ def _isinst1(it, v, ty):
         if isinstance(v, Inst):
             return v.cls is not None and last in it.prog.ext_bases(v.cls)
         if isinstance(v, BA):
-            return last == 'bitarray'
+            return last in ('bitarray', 'frozenbitarray') if last == 'bitarray' else None
         if isinstance(v, (K, PInt, ListV, DictV, PBits)):
             return False
         return None
